@@ -273,6 +273,17 @@ func (g *G) intLit(t *Type) string {
 	if v >= 0 && g.r.Chance(1, 12) {
 		return fmt.Sprintf("0x%x", v)
 	}
+	if g.r.Chance(1, 16) {
+		// octal and negative hexadecimal spellings
+		switch {
+		case v > 0 && g.r.Bool():
+			return fmt.Sprintf("0%o", v)
+		case v < 0 && g.r.Bool():
+			return fmt.Sprintf("-0%o", -v)
+		case v < 0:
+			return fmt.Sprintf("-0x%x", -v)
+		}
+	}
 	return fmt.Sprint(v)
 }
 
@@ -1062,6 +1073,9 @@ func (g *G) boolExpr(d int) string {
 	case n < 18:
 		vs := g.varsWhere(func(v *Var) bool { return v.T.K == KSlice || v.T.K == KMap })
 		if len(vs) > 0 {
+			if g.r.Chance(1, 3) {
+				return "nil " + core.Pick(g.r, []string{"==", "!="}) + " " + g.ref(core.Pick(g.r, vs))
+			}
 			return g.ref(core.Pick(g.r, vs)) + " " + core.Pick(g.r, []string{"==", "!="}) + " nil"
 		}
 		fallthrough
